@@ -102,7 +102,9 @@ class FunctionMixin:
 
             function_execution = self.as_context()
             result = function_execution.infer()
-            return_hint = result.get_type_hint()
+            # A function can return itself (or a function that returns it).
+            with recursion.execution_allowed(self.inference_state, self.tree_node) as allowed:
+                return_hint = result.get_type_hint() if allowed else None
             body = self.py__name__() + '(%s)' % ', '.join([
                 param_name_to_str(n)
                 for n in function_execution.get_param_names()
